@@ -82,3 +82,29 @@ func TestVerifWitnessIsTimeNamesRace(t *testing.T) {
 func TestVerifWitnessIsNamesRace(t *testing.T) {
 	verifWitnessRaceWithSetSchema(func(m *Machine) { _ = m.Is(S{"A"}) })
 }
+
+// Witness for the VerifyStates defect (C12): the public VerifyStates replaces
+// m.stateNames (and resets the shared copy) while holding schemaMx for READING
+// only, so it races with every reader that also holds the read lock
+// (StateNames, Index, ...) and with another VerifyStates.
+func TestVerifWitnessVerifyStatesRace(t *testing.T) {
+	for i := 0; i < 100; i++ {
+		m := New(context.Background(), Schema{"A": {}, "B": {}}, nil)
+		var wg sync.WaitGroup
+		wg.Add(2)
+		go func() {
+			defer wg.Done()
+			for k := 0; k < 20; k++ {
+				_ = m.VerifyStates(S{"A", "B", StateException})
+			}
+		}()
+		go func() {
+			defer wg.Done()
+			for k := 0; k < 100; k++ {
+				_ = m.StateNames()
+			}
+		}()
+		wg.Wait()
+		m.Dispose()
+	}
+}
